@@ -107,6 +107,23 @@ pub proof fn lemma_after_rparen_bounds(ch: Seq<&SyntaxNode>)
     reveal_with_fuel(after_rparen, 2);
     if ch.len() > 0 && ch[0].kind_s() != SyntaxKind::RightParen { lemma_after_rparen_bounds(ch.subrange(1, ch.len() as int)); }
 }
+/// the closing parenthesis is the first one: with no RightParen among the first n children and one at n, the parenthesized part
+/// is the first n + 1 children (all of them when there is none at all)
+pub proof fn lemma_after_rparen_first(ch: Seq<&SyntaxNode>, n: int)
+    requires 0 <= n <= ch.len(), forall|k: int| 0 <= k < n ==> (#[trigger] ch[k]).kind_s() != SyntaxKind::RightParen,
+        n < ch.len() ==> ch[n].kind_s() == SyntaxKind::RightParen,
+    ensures after_rparen(ch) == (if n < ch.len() { n + 1 } else { n }),
+    decreases n,
+{
+    reveal_with_fuel(after_rparen, 2);
+    if n > 0 {
+        let t = ch.subrange(1, ch.len() as int);
+        assert(ch[0].kind_s() != SyntaxKind::RightParen);
+        assert forall|k: int| 0 <= k < n - 1 implies (#[trigger] t[k]).kind_s() != SyntaxKind::RightParen by { assert(t[k] == ch[k + 1]); }
+        if n - 1 < t.len() { assert(t[n - 1] == ch[n]); }
+        lemma_after_rparen_first(t, n - 1);
+    }
+}
 pub open spec fn has_paren_s(ch: Seq<&SyntaxNode>) -> bool { ch.len() > 0 && ch[0].kind_s() == SyntaxKind::LeftParen }
 /// the children up to and including the closing parenthesis
 pub open spec fn paren_part<'a>(ch: Seq<&'a SyntaxNode>) -> Seq<&'a SyntaxNode> { ch.subrange(0, after_rparen(ch)) }
@@ -145,6 +162,30 @@ pub proof fn lemma_sig_concat_first(s: Seq<&SyntaxNode>)
         assert(s.drop_last().subrange(1, s.len() - 1) =~= s.subrange(1, s.len() as int).drop_last());
         assert(s.subrange(1, s.len() as int).last() == s.last());
         assert(s.drop_last()[0] == s[0]);
+    }
+}
+/// the children in front of the closing parenthesis carry the words of the whole parenthesized part (`)` is no word)
+pub proof fn lemma_paren_prefix_words(node: &SyntaxNode, pre: Seq<&SyntaxNode>)
+    requires tree_wf(node), pre.is_prefix_of(node.children_s()),
+        forall|k: int| 0 <= k < pre.len() ==> (#[trigger] pre[k]).kind_s() != SyntaxKind::RightParen,
+        pre.len() < node.children_s().len() ==> node.children_s()[pre.len() as int].kind_s() == SyntaxKind::RightParen,
+    ensures sig_concat(pre) == sig_concat(paren_part(node.children_s())),
+{
+    let ch = node.children_s();
+    let n = pre.len() as int;
+    pf_children(node);
+    reveal_strlit(")");
+    assert(pre =~= ch.subrange(0, n));
+    assert forall|k: int| 0 <= k < n implies (#[trigger] ch[k]).kind_s() != SyntaxKind::RightParen by { assert(ch[k] == pre[k]); }
+    lemma_after_rparen_first(ch, n);
+    if n < ch.len() {
+        assert(paren_part(ch) =~= pre.push(ch[n]));
+        lemma_sig_concat_push(pre, ch[n]);
+        pf_sig(ch[n]); pf_token_text(ch[n]);
+        assert(sig_leaves(ch[n]) =~= Seq::<Seq<char>>::empty());
+        assert(sig_concat(pre) + sig_leaves(ch[n]) =~= sig_concat(pre));
+    } else {
+        assert(paren_part(ch) =~= pre);
     }
 }
 /// PF13: below a Math or Markup node there are only expressions and tokens
